@@ -1309,7 +1309,7 @@ impl<'t> Captures<'t> {
                 end: span.end,
             }),
             CapturesImpl::Fancy { text, ref saves } => {
-                let slot = i * 2;
+                let slot = i.checked_mul(2)?;
                 if slot >= saves.len() {
                     return None;
                 }
